@@ -13,8 +13,9 @@ Tr == Traces[tid]
 ToSet(s) == {s[i] : i \in 1..Len(s)}
 
 Post(p) ==
-    /\ \A c \in Conns : /\ inflight'[c] = p.inflight[c]
-                        /\ orph'[c] = ToSet(p.orph[c])
+    /\ late' = p.late
+    /\ \A c \in Conns : /\ c # p.late => inflight'[c] = p.inflight[c]          \* in flux inside process_msg (see Pool.tla, LateStart)
+                        /\ c # p.late => orph'[c] = ToSet(p.orph[c])
                         /\ reg'[c] = ToSet(p.reg[c])
                         /\ owed'[c] = ToSet(p.owed[c])
                         /\ thr'[c] = p.thr[c]
@@ -41,6 +42,8 @@ TraceNext ==
           \/ e.e = "BorrowTake"         /\ BorrowTake(e.r)
           \/ e.e = "Send"               /\ Send(e.r, e.f)
           \/ e.e = "Respond"            /\ Respond(e.c, e.r)
+          \/ e.e = "LateStart"          /\ LateStart(e.c, e.r)
+          \/ e.e = "LateFinish"         /\ LateFinish
           \/ e.e = "Timeout"            /\ Timeout(e.r)
           \/ e.e = "ConnFails"          /\ ConnFails(e.c, e.f)
           \/ e.e = "ReplaceCheck"       /\ ReplaceCheck
